@@ -169,7 +169,7 @@ def attempt (cfg : Cfg) (s : Script) : Result :=
 
 /-- `PipeRelay`: exit status 0 = delivered; otherwise permanent iff the output starts with an
     enhanced status code `5.x.x `, else transient; a timeout is transient. -/
-inductive PipeOut | exit0 | fail5xx | failOther | timeout
+inductive PipeOut | exit0 | fail5xx | failOther | timeout | killed
 deriving Repr, DecidableEq
 
 def pipeCls : PipeOut → Cls
@@ -177,6 +177,7 @@ def pipeCls : PipeOut → Cls
   | .fail5xx => .perm
   | .failOther => .temp
   | .timeout => .temp
+  | .killed => .temp          -- the program died from a signal (negative returncode): not a delivery
 
 /-- per-recipient mode: a table; single mode: the first recipient's process decides the message. -/
 def pipeAttempt (perRecipient : Bool) (outs : List PipeOut) : Result :=
